@@ -434,6 +434,18 @@ def check_apply_op(sc, obs, opi, add):
             add('C09', 'callback_kind_matches', {'task': i, 'callback': cbs[i][0], 'expected': want})
     if o.get('outcome') != 'ok':
         add('C09', 'failure_does_not_stop_pool', {'exc': o.get('exc')})
+    # identity, private state and extras of the apply family: what a task (or a hook run for it) received
+    n_jobs = sc['pool'].get('n_jobs', 2)
+    for c in [c for c in obs.get('calls', []) if c[0] == opi]:
+        true_id = int(c[2].split('-')[-1]) if str(c[2]).startswith('Worker-') else None
+        if c[4] is not None and (c[4] != true_id or not (0 <= c[4] < n_jobs)):
+            add('C13', 'worker_id_value', {'seen': c[4], 'actual': true_id, 'n_jobs': n_jobs, 'family': 'apply'})
+        if not c[9]:
+            add('C13', 'state_private', {'instance': c[2], 'token': c[3], 'family': 'apply'})
+        if not c[10]:
+            add('C13', 'shared_objects_passed', {'instance': c[2], 'family': 'apply'})
+        if not c[8]:
+            add('C13', 'extras_order_apply', {'kind': c[1]})
     if op.get('want_insights') and sc['pool'].get('enable_insights') and opi == 0:
         ins = o.get('insights')
         done = sum(1 for a in o['apply'] if a[1] == 'ok')
